@@ -53,7 +53,7 @@ Definition ecode_table : list (string * Z) := [
   ("ttheader.readACLToken#fmt.Errorf", 8); ("ttheader.readKVInfo#fmt.Errorf", 9);
   ("ttheader.Decode#errors.New", 3); ("ttheader.Decode#fmt.Errorf#1", 4);
   ("ttheader.Decode#fmt.Errorf#2", 7); ("ttheader.Decode#fmt.Errorf#3", 8);
-  ("thrift.Skip#thrift.NewProtocolException", 18);
+  ("thrift.Skip#thrift.NewProtocolException", 18); ("thrift.skipType#thrift.NewProtocolException", 18);
   (* used by the translator's differential self-test (tools/gotrans/testdata/sem) only *)
   ("sem.inner#fmt.Errorf", 201); ("sem.ErrWrap#errors.New", 202); ("sem.ErrWrap#fmt.Errorf#1", 203);
   ("sem.ErrWrap#fmt.Errorf#2", 204); ("sem.ErrNilDeref#errors.New", 205); ("sem.ErrNilDeref#fmt.Errorf", 206)
@@ -235,3 +235,11 @@ Definition gmake_bytes (n : Z) : res bytes :=
 Definition gtable (t : list Z) (i : Z) : res Z :=
   if i <? 0 then Panic 2
   else match nth_error t (Z.to_nat i) with Some x => Ok x | None => Panic 2 end.
+
+(* thrift.NewProtocolExceptionWithErr(err): panics on nil (err.Error()); otherwise the
+   ProtocolException that wraps err, identified by [gwrapped c] where c identifies err.  (An err
+   that is a *ProtocolException already would be returned as it is; the translator's users are the
+   readers over bufiox, whose errors are not.)  Model/StreamSkip.v e_wrap is the same function. *)
+Definition gwrapped (c : Z) : Z := 100 + c.
+Definition gpe_wrap (e : gerror) : res gerror :=
+  match e with None => Panic 5 | Some c => Ok (Some (gwrapped c)) end.
